@@ -75,6 +75,8 @@ func (hw *httpWorld) backendTunnel(conn net.Conn, br *bufio.Reader, m *rawMsg, i
 	go func() {
 		defer close(wdone)
 		out := t.B
+		// a tunnel may be idle for longer than the vhost's response-header timeout
+		pause := hw.timeout > 0 && hw.timeout <= 5 && wr.Intn(2) == 0
 		for len(out) > 0 {
 			n := wr.Range(1, 9000)
 			if n > len(out) {
@@ -84,6 +86,10 @@ func (hw *httpWorld) backendTunnel(conn net.Conn, br *bufio.Reader, m *rawMsg, i
 				return
 			}
 			out = out[n:]
+			if pause {
+				pause = false
+				time.Sleep(time.Duration(hw.timeout)*time.Second + 1500*time.Millisecond)
+			}
 		}
 	}()
 	got := make([]byte, len(t.A))
